@@ -339,6 +339,20 @@ def sync_method(ctx, obj, name, args, kwargs):
             return SInt(len(st["items"]) + int_term(st["extra"]))
         if name == "task_done":
             return None
+    if k == "deque":
+        if name == "appendleft":
+            st["items"].insert(0, args[0])
+            return None
+        if name == "append":
+            st["items"].append(args[0])
+            return None
+        if name == "popleft":
+            if st["items"]:
+                return st["items"].pop(0)
+            if st.get("extra") is not None and ctx.branch(_extra_pos(st)):
+                from .engine import Unsupported
+                raise Unsupported("deque.popleft() reaches the unmodelled tail of the queue")
+            ctx.py_raise(IndexError, "pop from an empty deque")
     if k == "lock":
         if name in ("acquire", "__enter__"):
             if st["held"]:
